@@ -427,6 +427,20 @@ def generate(repo):
     return "\n".join(o) + "\n"
 
 
+def role_tables(repo):
+    """(hello_roles, welcome_roles) as read from role.py / message.py: [(role name, [feature, ...]), ...]; fail closed"""
+    text = generate(repo)
+    import re
+    out = []
+    for nm in ("gen_hello_roles", "gen_welcome_roles"):
+        m = re.search(r"Definition %s : list \(string \* list string\) := (.*)\.\n" % nm, text)
+        if not m:
+            raise ShapeError(nm + " not generated")
+        body = m.group(1)
+        out.append([(r, re.findall(r'"([^"]*)"', fs)) for r, fs in re.findall(r'\("([^"]*)", \[([^\]]*)\]\)', body)])
+    return out[0], out[1]
+
+
 if __name__ == "__main__":
     repo = os.environ.get("AV_REPO", "/repo")
     text = generate(repo)
